@@ -52,7 +52,7 @@ def calls_index_Index : List (String × List String) := [
   ("_search_helper", ["<raise TypeError>", "IndexResult", "TypeError", "isinstance", "range", "self._search_fields", "self._search_helper", "self._search_measurement", "self._search_tags", "self._search_timestamps", "set"]),
   ("_search_measurement", ["<except Exception>", "_._path_resolver", "_._test", "_.union", "self._measurements.items", "set"]),
   ("_search_tags", ["<except Exception>", "_._path_resolver", "_._test", "_.items", "_.union", "self._tags.items", "set"]),
-  ("_search_timestamps", ["<except Exception>", "_._path_resolver", "_._test", "_.add", "_.is_hashable", "_.timestamp", "datetime.fromtimestamp", "find_eq", "find_ge", "find_gt", "find_le", "find_lt", "len", "set", "set(self._storage_pos_sorted_by_ts).difference", "zip"]),
+  ("_search_timestamps", ["<except Exception>", "_._path_resolver", "_._test", "_.add", "_.is_hashable", "_.timestamp", "datetime.fromtimestamp", "find_eq", "find_ge", "find_gt", "find_le", "find_lt", "isinstance", "len", "set", "set(self._storage_pos_sorted_by_ts).difference", "zip"]),
   ("_remove_fields", ["self._fields.items"]),
   ("_remove_measurements", ["self._measurements.keys"]),
   ("_remove_tags", ["_.items", "self._tags.items"]),
@@ -242,7 +242,7 @@ def calls_queries_BaseQuery : List (String × List String) := [
   ("__hash__", ["hash"]),
   ("__getattr__", ["<raise RuntimeError>", "RuntimeError", "self.is_hashable", "type", "type(self)"]),
   ("__getitem__", ["self.__getattr__"]),
-  ("_generate_simple_query", ["<raise RuntimeError>", "<raise TypeError>", "RuntimeError", "SimpleQuery", "TypeError", "_.astimezone", "isinstance", "self.is_hashable"]),
+  ("_generate_simple_query", ["<except TypeError>", "<raise RuntimeError>", "<raise TypeError>", "RuntimeError", "SimpleQuery", "TypeError", "_.astimezone", "hash", "isinstance", "self.is_hashable"]),
   ("_generate_simple_query.test", ["<except Exception>", "_"]),
   ("_generate_simple_query.path_resolver", ["<except Exception>", "<raise e>", "_", "isinstance"]),
   ("__eq__", ["self._generate_simple_query"]),
